@@ -22,8 +22,9 @@
 (* and the query only).  The check runs every query under every budget     *)
 (* and physical design and demands this answer each time.                  *)
 (*                                                                         *)
-(* `Impl(q, kf, tabs)` is the same evaluator with named deviations         *)
-(* switched on (kf is a set of names).  Impl(q, {}, tabs) = Ref(q, tabs).  *)
+(* `Impl(q, kf, tabs, r)` is the same evaluator with named deviations      *)
+(* switched on (kf is a set of names), on tables scaled by r.              *)
+(* Impl(q, {}, tabs, 1) = Ref(q, tabs) (checked by TLC, ImplIsRef).        *)
 (* The deviations describe defects that were found in TurDB by this check  *)
 (* and are listed in known_findings.d/C17.json; an observed answer that is *)
 (* neither the reference answer nor the answer of a deviation set is a     *)
